@@ -1836,6 +1836,8 @@ def evaluate__round(self: XPathFunction, context: ta.ContextType = None) \
         return []
     elif isinstance(arg, XPathNode) or self.parser.compatibility_mode:
         arg = self.number_value(arg)
+    elif isinstance(arg, bool):
+        raise self.error('XPTY0004', "an xs:boolean value is not an xs:numeric value")
 
     if isinstance(arg, float) and (math.isnan(arg) or math.isinf(arg)):
         return arg
